@@ -116,7 +116,7 @@ func checkStateless(c *Ctx, res *report.Result, rule string, rels []string, exem
 			}
 		}
 	}
-	if n < 20 {
+	if n < 5 {
 		res.Undec(rule, "functions scanned for retained state", "", fmt.Sprintf("%d", n))
 	}
 	res.Analysed["stateless_functions"] = n
